@@ -84,10 +84,7 @@ class ReferenceRepresentation(Representation):
             raise ValueError("0-simplices do not have faces")
 
         # fill in defaults
-        if id is None:
-            # no identifier, make one
-            id = self.newSimplex(k)
-        else:
+        if id is not None:
             # check we've got a new id
             if id in self._simplices:
                 raise KeyError(f'Duplicate simplex {id}')
@@ -105,6 +102,26 @@ class ReferenceRepresentation(Representation):
                 else:
                     seen.add(f)
 
+        # check the order and the faces before changing anything
+        if k > self._maxOrder + 1:
+            # simplex can't have any faces, must be an error
+            raise ValueError(f'Can\'t add simplex of order {k}')
+        for f in fs:
+            if f not in self._simplices:
+                raise KeyError(f'Unknown simplex {f}')
+            (fo, _) = self._simplices[f]
+            if fo != k - 1:
+                raise ValueError(f'Simplex {f} has wrong order ({fo}) to be a face of a simplex of order {k}')
+        if 0 < k <= self.maxOrder():
+            # check we don't already have a simplex of this order with
+            # the given faces
+            swf = self._complex.simplexWithFaces(fs)
+            if swf is not None:
+                raise KeyError(f'Already have simplex {swf} with faces {fs}')
+        if id is None:
+            # no identifier, make one
+            id = self.newSimplex(k)
+
         # if we're creating a simplex of an order higher than we've seen before,
         # create the necessary structures
         if k > self.maxOrder():
@@ -120,13 +137,6 @@ class ReferenceRepresentation(Representation):
                 self._bases.append(numpy.zeros([len(self._indices[0]), 0],
                                                dtype=numpy.int8))           # no simplex bases
                 self._maxOrder = k
-        else:
-            # check we don't already have a simplex of this order with
-            # the given faces
-            if k > 0:
-                swf = self._complex.simplexWithFaces(fs)
-                if swf is not None:
-                    raise KeyError(f'Already have simplex {swf} with faces {fs}')
 
         # if we have simplices in the order above this one, extend that order's boundary operator
         # for that order
